@@ -144,7 +144,7 @@ func runC03(c *Ctx) {
 	prefixes := smallPrefixes()
 	sets := keySets(keys, maxSet)
 	c.R.Exhaustive = true
-	c.R.Rule = fmt.Sprintf("exhaustive: all %d key sets of size ≤ %d over the %d keys in {a,b,/}^≤3 (not starting/ending with '/'), each reached by a put/delete history from the previous set, × all %d prefixes in {a,b,/}^≤3 not starting with '/' × delimiter {none,'/'} (+'a' on mem/bolt) × {V1,V2}; plus a fixed four-level key tree listed under every prefix at every depth, and %d random listings over richer keys (UTF-8, '-', '.', spaces, '//' on key-value backends); fs backends: key sets without file/directory conflicts; every listing is compared with the Lean model and with Spec.Listing over the reference store; non-trivial = distinct (backend, key set, prefix, delimiter) whose specified listing is non-empty", len(sets), maxSet, len(keys), len(prefixes), nRand)
+	c.R.Rule = fmt.Sprintf("exhaustive: all %d key sets of size ≤ %d over the %d keys in {a,b,/}^≤3 (not starting/ending with '/'), each reached by a put/delete history from the previous set, × all %d prefixes in {a,b,/}^≤3 not starting with '/' × delimiter {none,'/','a'} × {V1,V2}; plus a fixed four-level key tree listed under every prefix at every depth, and %d random listings over richer keys (UTF-8, '-', '.', spaces, '//' on key-value backends); fs backends: key sets without file/directory conflicts; every listing is compared with the Lean model and with Spec.Listing over the reference store; non-trivial = distinct (backend, key set, prefix, delimiter) whose specified listing is non-empty", len(sets), maxSet, len(keys), len(prefixes), nRand)
 	for _, kind := range c.kinds(impl.AllKinds) {
 		inst, err := impl.New(kind, c.Tmp)
 		if err != nil {
@@ -160,10 +160,8 @@ func runC03(c *Ctx) {
 			l, o := r.MkBucket(bucket)
 			r.judgeProj(l, o, "setup", ident, nil)
 		}
-		delims := []string{"", "/"}
-		if !inst.IsFs() {
-			delims = append(delims, "a")
-		}
+		// every backend groups by whatever single-character delimiter the request names
+		delims := []string{"", "/", "a"}
 		cur := map[string]bool{}
 		ok := true
 		doList := func(set []string, pfx, d string, v2 bool, finger string) {
